@@ -105,34 +105,8 @@ def setup(ctx):
 
 # --- building ------------------------------------------------------------------
 
-ENV_KEYS = ['levels', 'times', 'curves', 'rel', 'loop', 'offset']
-ENV_KW = {'levels': 'levels', 'times': 'times', 'curves': 'curves',
-          'rel': 'release_node', 'loop': 'loop_node', 'offset': 'offset'}
-
-
-def call_args(spec, keys, kwnames, positional):
-    """Arguments from the keys present in the spec (deep copies: sc3 may keep
-    or change the lists it is given). Positional for the longest present
-    prefix when asked, keywords otherwise."""
-    args, kw = [], {}
-    prefix = positional
-    for k in keys:
-        if k in spec:
-            val = copy.deepcopy(spec[k])
-            if prefix:
-                args.append(val)
-            else:
-                kw[kwnames[k]] = val
-        else:
-            prefix = False
-    return args, kw
-
-
-def build_env(spec):
-    if 'ctor' in spec:
-        return build_ctor(spec)
-    args, kw = call_args(spec, ENV_KEYS, ENV_KW, spec.get('pos', False))
-    return Env(*args, **kw)
+from vlib.envbuild import (ENV_KEYS, ENV_KW, STEP_KEYS, STEP_KW,  # noqa
+                           call_args, build_env, build_ctor)
 
 
 def expected_env(spec):
@@ -141,29 +115,6 @@ def expected_env(spec):
     return R.encode(spec.get('levels', [0, 1, 0]), spec.get('times', [1, 1]),
                     spec.get('curves', 'lin'), spec.get('rel'),
                     spec.get('loop'))
-
-
-STEP_KEYS = ['levels', 'times', 'rel', 'loop', 'offset']
-STEP_KW = {'levels': 'levels', 'times': 'times', 'rel': 'release_level',
-           'loop': 'loop_level', 'offset': 'offset'}
-
-
-def build_ctor(case):
-    name = case['ctor']
-    if name == 'step':
-        args, kw = call_args(case, STEP_KEYS, STEP_KW, case.get('pos', False))
-        return Env.step(*args, **kw)
-    if name == 'pairs':
-        pairs = copy.deepcopy(case['pairs'])
-        if 'curves' in case:
-            return Env.pairs(pairs, copy.deepcopy(case['curves']))
-        return Env.pairs(pairs)
-    if name == 'xyc':
-        return Env.xyc(copy.deepcopy(case['xyc']))
-    params = [k for k, _ in R.CTORS[name][0]]
-    args, kw = call_args(case['args'], params, {k: k for k in params},
-                         case.get('pos', False))
-    return getattr(Env, name)(*args, **kw)
 
 
 def expected_ctor(case):
